@@ -190,4 +190,21 @@ func init() {
 		Technique: "runtime monitoring: round-trip + independent reader (libpcap) differential, exhaustive crash-point (truncation offset) enumeration per file",
 		DesignRef: "DESIGN.md §3 C14",
 	})
+	add(Spec{
+		PropSpec: vlib.PropSpec{
+			ID: "C15", Level: "exploration",
+			Rule: "hostile phase: base streams = files written by the library's writers (classic us/ns, pcapng with several interfaces/options/statistics), hand-built snoop captures and the capture fixtures found under /repo; for each base a field walker lists every header field of every block/record/option (block type/length/trailer, SHB, IDB, EPB, ISB fixed fields, every option code and length, if_tsresol value, classic file and record headers, snoop header and record headers) and each field is overwritten with boundary values {0,1,3,4,7,8,11,12,15,16,..,v+-1,v+-4,len,0xffff,0x10000,2^31-1,2^31,2^32-16,2^32-1} in the file's byte order (1 in 8 in the other one), if_tsresol with all 256 values, every option length with 0..16; plus bit flips, byte substitutions, truncation, splices of two files, block repeats, random bytes, and the wrong reader for the format. Each stream is read to the first error with ReadPacketData or ZeroCopyReadPacketData (pcapng: default / WantMixedLinkType / SkipUnknownVersion). Monitors per call: no panic, CPU/heap watchdog, len(data)==CaptureLength<=Length, at most len/4+16 successful calls, bytes allocated by one call (runtime/metrics /gc/heap/allocs:bytes) <= 4 MiB + 4*(stream length + declared snap length) (4 MiB covers bufio and a gzip decompressor). chunking phase: the same stream through 1-byte, 1..7-byte, 4-byte, half and data-with-EOF readers and gzip-wrapped must give the same packets and final error; damaged gzip must not panic. faults phase: an injected I/O error at EVERY byte position of valid files (<= 2 KiB): packets before the position as in the clean run, then an error, never a panic. Non-trivial = stream on which the reader got past the file/section header; distinct by stream hash.",
+			Assumptions: []string{"mutated headers keep the declared snap length <= 16 MiB so that a conforming reader stays small", "an injected I/O error may surface as a different (non-nil) error; that is counted, not a violation"},
+			Phases: []vlib.Phase{
+				{Name: "hostile", Bin: "vchild", Quick: 16, Thorough: 16},
+				{Name: "chunking", Bin: "vchild", Quick: 8, Thorough: 16},
+				{Name: "faults", Bin: "vchild", Quick: 8, Thorough: 16},
+			},
+			Require: []string{"streams_past_the_file_header", "header_fields_mutated", "tsresol_values_tried", "chunked_reads_compared", "gzip_reads_compared", "fault_positions_enumerated"},
+		},
+		LevelText: "Runtime monitoring with sanitizer-style instruments (crash monitor, CPU/heap watchdog, allocation metric) around the real readers on structure-aware corruptions of valid files, chunked/gzip-wrapped variants and exhaustively enumerated I/O fault positions.",
+		LevelNote: trusted,
+		Technique: "runtime monitoring: structure-aware corruption + crash/CPU/allocation monitors, differential over stream chunkings, exhaustive I/O fault-position injection",
+		DesignRef: "DESIGN.md §3 C15",
+	})
 }
